@@ -4,7 +4,7 @@ import concurrent.futures as cf
 import os, shutil
 import vlib
 
-CFG = """CONSTANTS Subs = {%s} MaxVer = %d Start = 0 Backlog = FALSE
+CFG = """CONSTANTS Subs = {%s} MaxVer = %d Start = 0 Hold = FALSE Backlog = FALSE
 SPECIFICATION Spec
 INVARIANTS OneCall CallNewest
 PROPERTIES RelayIncreasing RefusedStopKeeps
@@ -53,6 +53,23 @@ def run(prop, tier, seed, scratch, t0):
         d["counts"].pop("graph_states", None)
         d["counts"].pop("graph_edges", None)
     dr += g1
+    # Register calls that stay in progress while transactions are published and another event arrives (Hold)
+    rh = vlib.tlc(scratch, "Watcher", (CFG % graph_cfg).replace("Hold = FALSE", "Hold = TRUE"), name="Watcher_hold", workers=1,
+                  extra=["-dump", "dot,actionlabels", "graph.dot"], timeout=3000)
+    if not rh["ok"]:
+        raise vlib.Inconclusive("TLC reports %s in Watcher.tla itself (Hold)" % rh["violated"])
+    doth = os.path.join(rh["dir"], "graph.dot")
+    rh["out"] = ""
+    tl.append(rh)
+    with cf.ThreadPoolExecutor(max_workers=shards) as ex:
+        gh = list(ex.map(lambda k: vlib.run_driver(binary, "TestWatcher", dict(VERIF_DOT=doth, VERIF_SHARD=k, VERIF_SHARDS=shards, VERIF_SEED=seed,
+                                                                              VERIF_WINDOW_STRIDE=4 if tier == "quick" else 1),
+                                                   scratch, "whold_%d" % k, timeout=6000), range(shards)))
+    os.remove(doth)
+    for d in gh:
+        d["counts"].pop("graph_states", None)
+        d["counts"].pop("graph_edges", None)
+    dr += gh
     # backlog: only progressed / concluded events, the client reads at the end
     bdir = os.path.join(scratch, "wbacklog")
     os.makedirs(os.path.join(bdir, "b"))
